@@ -28,3 +28,7 @@ def run(tier):
     chk.assumptions = ["reports for methods a state does not override (verbose mode; the templated react/query family in interface mode) are tolerated and counted",
                        "an orthogonal region reports a utility resolution without a prong"]
     return chk
+
+
+def replay(path):
+    return en.replay(path)
